@@ -5,8 +5,17 @@ Tie: scripted-oracle lock-step of the REAL infretis.core.tis.select_shoot / reti
 quantis_swap_zero (scripted engines replaying prescribed frame streams through the real
 add_to_path, scripted random numbers, np.exp observed) against the extracted model, plus the
 property's own statement evaluated on the implementation's results (junction identity,
-validity, thresholds, early 0-L reject without propagation, double-swap identity with a
-deterministic time-reversible plug-in engine).
+validity, thresholds, early 0-L reject without propagation, double-swap identity with
+deterministic time-reversible plug-in engines).
+
+[0-] and [0+] always get two DISTINGUISHABLE engine objects (legal in infretis through
+simulation.ensemble_engines): every propagate call and every produced frame records the identity
+of the object, the model answers which object each call is made on (c_eng), and the oracle states
+which engine must have produced which frames: everything of the new [0-] path beyond the shared
+point old[0+][1] comes from the [0-] engine, everything of the new [0+] path beyond the shared
+point old[0-][-2] from the [0+] engine.  The double swap is run with one dynamics for both
+objects and with two different dynamics (one per ensemble): new paths must be trajectories of
+their own ensemble's dynamics and two swaps must restore both original order sequences.
 """
 import importlib.util  # noqa: F401
 import itertools
@@ -18,9 +27,9 @@ import common
 META = {
     "id": "C11",
     "level": "proof",
-    "technique": "Coq theorems over a literal model of retis_swap_zero / quantis_swap_zero (stop-rule invariants, abstract reversible dynamics) + scripted-oracle lock-step of the extracted model vs the real functions",
-    "text": "Unbounded theorems (any paths, interface values, length limits, engine frame streams, draws, energies) about an executable model of the two zero-swap moves over the current add_to_path stop rule: junction identity as frame identities and as order values (C11_swap_junction_frames, C11_swap_junction), full shape of an accepted swap and the converse sufficient conditions (C11_swap_accepted_shape, C11_swap_accepted_if), validity of both new paths (C11_swap_valid), lambda_-1 early rejection with no engine call and no draw (C11_lambda_m1_test, C11_lambda_m1_reject), QuanTIS energy rule u <= min(1,E) with the exponent's signs and the frames the four energies are read from (C11_quantis_accept_iff, C11_quantis_exponent), QuanTIS junction (C11_quantis_junction), and for an abstract deterministic time-reversible engine (state space X, step T, reversal R with R.R = id, R.T.R.T = id, ord.R = ord) that the swap back is accepted and restores both order sequences (C11_swap_twice_id, C11_swap_twice_restores). The model is tied to /repo by running the extracted model and the real select_shoot/retis_swap_zero/quantis_swap_zero on the same old paths, settings, engine streams, draws and energies (all valid [0-]/[0+] pairs over a small integer alphabet, limits incl. exact hits, lambda_minus_one on/off, wf high-acceptance swap, quantis with draws around the Metropolis threshold), and by evaluating the property's statement on the implementation's outputs, including a double swap of the real functions with a deterministic reversible integer engine.",
-    "note": "Trusted: Coq kernel; extraction (ExtrOcamlBasic) + OCaml driver; this harness (scripted engines built on plugins.engines.ScriptedEngine and the real add_to_path, scripted rgen, np.exp shim, canonicalisation). No axioms (every Print Assumptions is closed). exp is not modelled: its value E is computed by numpy exactly as the code does and handed to the model as the exact rational of that float; the exponent is compared exactly (dyadic energies/betas). -inf is represented in the model by an integer below every order value of the case. The order-value form of the junction assumes that an engine's first frame carries the order parameter of the phase point it was started from (propagate contract, C12); validity and reversibility theorems assume maxlength([0-]) <= maxlength([0+]) (one shared tis_set in infretis) and ordered interfaces. The swap never reads propagate's success flag, so it is insensitive to the add_to_path repair (C11_stop_rule_irrelevant). The QuanTIS double swap is checked on the implementation only (no Coq theorem); reversibility of real MD engines is an assumption of the statement itself. quantis_swap_zero has no lambda_-1 early exit: check_config rejects quantis together with lambda_minus_one.",
+    "technique": "Coq theorems over a literal model of retis_swap_zero / quantis_swap_zero (stop-rule invariants, abstract reversible dynamics: one engine and two different engines, one per ensemble) + scripted-oracle lock-step of the extracted model vs the real functions with two distinguishable engine objects",
+    "text": "Unbounded theorems (any paths, interface values, length limits, engine frame streams, draws, energies) about an executable model of the two zero-swap moves over the current add_to_path stop rule: junction identity as frame identities and as order values (C11_swap_junction_frames, C11_swap_junction), full shape of an accepted swap and the converse sufficient conditions (C11_swap_accepted_shape, C11_swap_accepted_if), validity of both new paths (C11_swap_valid), lambda_-1 early rejection with no engine call and no draw (C11_lambda_m1_test, C11_lambda_m1_reject), QuanTIS energy rule u <= min(1,E) with the exponent's signs and the frames the four energies are read from (C11_quantis_accept_iff, C11_quantis_exponent), QuanTIS junction (C11_quantis_junction), and for an abstract deterministic time-reversible engine (state space X, step T, reversal R with R.R = id, R.T.R.T = id, ord.R = ord) that the swap back is accepted and restores both order sequences (C11_swap_twice_id, C11_swap_twice_restores). Which engine object does what is part of the model (every modelled propagate call names the object it is made on: E0 = engines[-1][0] for [0-], E1 = engines[0][0] for [0+]): an accepted swap runs backward on E0 and forward on E1, every frame of the new [0-] path but the shared point old[0+][1] is a frame of the E0 call's answer and every frame of the new [0+] path but the shared point old[0-][-2] one of the E1 call's (C11_swap_engines); QuanTIS calls E0, E1, E0, E1 (C11_quantis_engines, C11_quantis_junction). With TWO different deterministic dynamics (T0,R0) for [0-] and (T1,R1) for [0+] over one phase space (simulation.ensemble_engines): the streams are the answers of exactly the engines the calls are made on (C11_two_engines_calls), the new [0-] path is the backward T0-trajectory from old[0+][0] plus the shared point and the new [0+] path the shared point plus the forward T1-trajectory from old[0-][-1] (C11_two_engines_segments), and if old [0-] is a T0-trajectory and old [0+] a T1-trajectory the swap back is accepted and both order sequences are restored, assuming time-reversibility of the [0-] engine only (C11_swap_twice_id_two_engines, C11_swap_twice_restores_two_engines; one engine is the special case T0=T1, C11_one_engine_special_case). The model is tied to /repo by running the extracted model and the real select_shoot/retis_swap_zero/quantis_swap_zero on the same old paths, settings, engine streams, draws and energies (all valid [0-]/[0+] pairs over a small integer alphabet, limits incl. exact hits, lambda_minus_one on/off, wf high-acceptance swap, quantis with draws around the Metropolis threshold), always with two distinguishable engine objects whose identity is logged per call and per frame and compared with the model's, and by evaluating the property's statement on the implementation's outputs (incl. which engine produced which frames), including double swaps of the real functions with deterministic reversible integer engines: one dynamics for both ensembles and two different dynamics (one per ensemble; new paths must be trajectories of their own ensemble's dynamics, two swaps must restore both sequences; every retis swap of these also compared with the model).",
+    "note": "Trusted: Coq kernel; extraction (ExtrOcamlBasic) + OCaml driver; this harness (scripted engines built on plugins.engines.ScriptedEngine and the real add_to_path, scripted rgen, np.exp shim, canonicalisation). No axioms (every Print Assumptions is closed). exp is not modelled: its value E is computed by numpy exactly as the code does and handed to the model as the exact rational of that float; the exponent is compared exactly (dyadic energies/betas). -inf is represented in the model by an integer below every order value of the case. The order-value form of the junction assumes that an engine's first frame carries the order parameter of the phase point it was started from (propagate contract, C12); validity and reversibility theorems assume maxlength([0-]) <= maxlength([0+]) (one shared tis_set in infretis) and ordered interfaces. The swap never reads propagate's success flag, so it is insensitive to the add_to_path repair (C11_stop_rule_irrelevant). The QuanTIS double swap (one and two engines) is checked on the implementation only (no Coq theorem); reversibility of real MD engines is an assumption of the statement itself. Two engines: the Coq theorems allow engine-specific velocity reversals R0, R1 and need reversibility of the [0-] engine only (the [0+] engine is never run backward by the swap); the harness engines share one reversal (v -> -v) as real MD engines do. Which engine object calls dump_phasepoint (engine1 for 'second', engine0 for 'second_last' in the code) is not modelled: a dumped copy holds the same configuration whoever writes it. Engine identity in the lock-step is a label of the engine object (the prescribed orders of a call do not depend on it), in the double swaps it is a different dynamics. quantis_swap_zero has no lambda_-1 early exit: check_config rejects quantis together with lambda_minus_one.",
     "design_ref": "4/C11",
 }
 LEVEL = "proof"
@@ -33,8 +42,12 @@ LM1, L0, LN = 0, 2, 5
 
 
 class Tape:
-    """The prescribed engine output: the n-th propagate call (whichever engine) continues with
-    script[n] = (first_order or None, [orders...]); energies[n] = per-frame vpot or None."""
+    """The prescribed engine output: the n-th propagate call continues with
+    script[n] = (first_order or None, [orders...]); energies[n] = per-frame vpot or None.
+    The tape is shared by the two engine OBJECTS of a case (so that the orders a call yields do
+    not depend on which object the code happens to call), but every frame carries the identity
+    of the object that produced it (config name e<eid>traj<n>) and every logged call the identity
+    of the object it was made on: eid 0 = engines[-1][0] ([0-]), eid 1 = engines[0][0] ([0+])."""
 
     def __init__(self, script, energies=None):
         self.script = script
@@ -54,9 +67,10 @@ def make_engine_classes():
         def _propagate_from(self, *a, **k):  # abstract in EngineBase; propagate is overridden
             raise NotImplementedError
 
-        def __init__(self, tape, beta=1.0):
+        def __init__(self, tape, beta=1.0, eid=0):
             super().__init__([], beta=beta)
             self.tape = tape
+            self.eid = eid
 
         def propagate(self, path, ens_set, system, reverse=False):
             t = self.tape
@@ -68,45 +82,48 @@ def make_engine_classes():
             left, _, right = ens_set["interfaces"]
             first, rest = t.script[n] if n < len(t.script) else (None, None)
             if rest is None:
-                t.calls.append((init, reverse, left, right, path.maxlen, 0))
+                t.calls.append((init, reverse, left, right, path.maxlen, 0, self.eid))
                 raise Exhausted("no stream")
             ener = t.energies[n] if t.energies and n < len(t.energies) else None
             orders = [system.order[0] if first is None else first] + list(rest)
             for k, o in enumerate(orders):
-                snapshot = {"order": [float(o)], "config": (f"traj{n}", k), "vel_rev": reverse}
+                snapshot = {"order": [float(o)], "config": (f"e{self.eid}traj{n}", k), "vel_rev": reverse}
                 if ener is not None and k < len(ener):
                     snapshot["vpot"] = ener[k]
                     snapshot["ekin"] = 0.0
                 phase_point = self.snapshot_to_system(system, snapshot)
                 status, success, stop, _ = self.add_to_path(path, phase_point, left, right)
                 if stop:
-                    t.calls.append((init, reverse, left, right, path.maxlen, k + 1))
+                    t.calls.append((init, reverse, left, right, path.maxlen, k + 1, self.eid))
                     return success, status
-            t.calls.append((init, reverse, left, right, path.maxlen, len(orders)))
+            t.calls.append((init, reverse, left, right, path.maxlen, len(orders), self.eid))
             raise Exhausted("stream ended before the stop rule fired")
 
     class VerletEngine(ScriptedEngine):
-        """Deterministic time-reversible integer dynamics (position Verlet on the integers):
-        state s = (x, p) = (position, previous position), T(x, p) = (2x - p + F(x), x),
-        velocity reversal R(x, p) = (x, 2x - p + F(x)); R.T.R.T = id and R.R = id exactly.
-        order = x.  Configurations live in a dict keyed by the frame's config tag."""
+        """Deterministic time-reversible integer dynamics (velocity Verlet on the integers, the force
+        table F giving the half-step kick): state s = (x, v) = (position, velocity),
+        T(x, v) = (x', v') with w = v + F(x), x' = x + w, v' = w + F(x'); velocity reversal
+        R(x, v) = (x, -v) is the same for every force table; R.T.R.T = id and R.R = id exactly.
+        order = x.  Configurations live in a dict keyed by the frame's config tag (shared by the
+        engine objects of a case: a configuration written by one is read by the other).  Two
+        objects with different force tables F are two different dynamics; every frame carries the
+        identity eid of the object that produced it (config name e<eid>traj<n>)."""
 
         def _propagate_from(self, *a, **k):
             raise NotImplementedError
 
-        def __init__(self, world, force, vfun, beta=1.0):
+        def __init__(self, world, force, vfun, beta=1.0, eid=0):
             super().__init__([], beta=beta)
             self.world = world          # shared: {"states": {config: (x, p)}, "ncalls": int, "streams": [...]}
             self.force = force
             self.vfun = vfun
+            self.eid = eid
 
         def T(self, s):
-            x, p = s
-            return (2 * x - p + self.force(x), x)
+            return vv_step(self.force, s)
 
         def R(self, s):
-            x, p = s
-            return (x, 2 * x - p + self.force(x))
+            return vv_reverse(s)
 
         def dump_config(self, config, deffnm="conf"):
             new = f"dump:{deffnm}:{config[0]}:{config[1]}"
@@ -127,16 +144,16 @@ def make_engine_classes():
             k = 0
             rec = []
             while True:
-                cfg = (f"traj{n}", k)
+                cfg = (f"e{self.eid}traj{n}", k)
                 w["states"][cfg] = s
                 snapshot = {"order": [float(s[0])], "config": cfg, "vel_rev": reverse,
                             "vpot": self.vfun(s[0]), "ekin": 0.0}
-                rec.append((s[0], self.vfun(s[0])))
+                rec.append((s[0], cfg, reverse))
                 phase_point = self.snapshot_to_system(system, snapshot)
                 status, success, stop, _ = self.add_to_path(path, phase_point, left, right)
                 if stop:
                     w["streams"].append(rec)
-                    w["calls"].append((init, reverse, left, right, path.maxlen, k + 1))
+                    w["calls"].append((init, reverse, left, right, path.maxlen, k + 1, self.eid))
                     return success, status
                 s = self.T(s)
                 k += 1
@@ -144,6 +161,18 @@ def make_engine_classes():
                     raise Exhausted("runaway")
 
     return TapeEngine, VerletEngine
+
+
+def vv_step(F, s):
+    """one velocity-Verlet step on the integers (F = half-step kick table)"""
+    x, v = s
+    w = v + F(x)
+    x2 = x + w
+    return (x2, w + F(x2))
+
+
+def vv_reverse(s):
+    return (s[0], -s[1])
 
 
 class ScriptRng:
@@ -217,8 +246,8 @@ def tag_of(config):
         return 100 + idx
     if name == "old1":
         return 200 + idx
-    if name.startswith("traj"):
-        return 1000 * (int(name[4:]) + 1) + idx
+    if name[:1] == "e" and name[2:6] == "traj":     # e<eid>traj<n>: frame idx of the n-th propagate call, made on engine object eid
+        return 1000 * (int(name[6:]) + 1) + 500 * int(name[1]) + idx
     if name.startswith("dump:"):
         parts = name.split(":")
         inner = tag_of((":".join(parts[2:-1]), int(parts[-1])))
@@ -226,6 +255,17 @@ def tag_of(config):
     if name.startswith("init"):
         return 900000 + int(name[4:])
     raise ValueError(f"unknown config {config}")
+
+
+def engine_of(config):
+    """identity of the engine object that produced a frame (None: not produced by a propagate call)"""
+    name = config[0]
+    if name[:1] == "e" and name[2:6] == "traj":
+        return int(name[1])
+    return None
+
+
+ENG_NAME = {0: "the [0-] engine engines[-1][0]", 1: "the [0+] engine engines[0][0]", None: "no propagate call"}
 
 
 def zint(x):
@@ -256,8 +296,8 @@ def enc_ens(e):
 
 
 def enc_call(c):
-    (o, cfg, rv), reverse, left, right, ml, used = c
-    return "/".join([enc_frame(o, cfg, rv), str(int(reverse)), zint(left), zint(right), str(ml), str(used)])
+    (o, cfg, rv), reverse, left, right, ml, used, eid = c
+    return "/".join([f"e{eid}", enc_frame(o, cfg, rv), str(int(reverse)), zint(left), zint(right), str(ml), str(used)])
 
 
 def enc_streams(produced):
@@ -302,7 +342,7 @@ def run_impl(case, TapeEngine, shim):
     old0 = mk_path(case.old0, "old0", case.maxlen0, case.v0)
     old1 = mk_path(case.old1, "old1", case.maxlen1, case.v1)
     tape = Tape(case.script, case.energies)
-    eng0, eng1 = TapeEngine(tape, case.betas[0]), TapeEngine(tape, case.betas[1])
+    eng0, eng1 = TapeEngine(tape, case.betas[0], eid=0), TapeEngine(tape, case.betas[1], eid=1)
     rgen = ScriptRng(case.draws)
     e0["rgen"] = rgen
     e1["rgen"] = ScriptRng(())
@@ -317,7 +357,8 @@ def run_impl(case, TapeEngine, shim):
     for n, en in enumerate(case.energies or []):
         for k, v in enumerate(en or []):
             if v is not None:
-                energies[1000 * (n + 1) + k] = v
+                energies[1000 * (n + 1) + k] = v            # whichever engine object produces the frame
+                energies[1000 * (n + 1) + 500 + k] = v
     shim.exp_args.clear()
     tis.ENGINES = {"e0": [eng0], "e1": [eng1]}
     enc_old = (enc_path(old0), enc_path(old1))
@@ -341,14 +382,14 @@ def run_impl(case, TapeEngine, shim):
     produced = []
     for n, (first, rest) in enumerate(case.script):
         if n < len(tape.calls):
-            (o, _, _), reverse = tape.calls[n][0], tape.calls[n][1]
+            (o, _, _), reverse, eid = tape.calls[n][0], tape.calls[n][1], tape.calls[n][6]
         else:
-            o, reverse = (first if first is not None else 0), False
+            o, reverse, eid = (first if first is not None else 0), False, n % 2
         if rest is None:
             produced.append([])
             continue
         ords = [o if first is None else first] + list(rest)
-        produced.append([(x, 1000 * (n + 1) + k, reverse) for k, x in enumerate(ords)])
+        produced.append([(x, 1000 * (n + 1) + 500 * eid + k, reverse) for k, x in enumerate(ords)])
     raw["produced"] = produced
     evalue = None
     exparg = None
@@ -356,21 +397,29 @@ def run_impl(case, TapeEngine, shim):
         exparg = Fraction(float(shim.exp_args[-1]))
         evalue = Fraction(float(shim._real.exp(shim.exp_args[-1])))
     raw["exparg"], raw["evalue"] = exparg, evalue
-    req = " ".join([
-        "swap", str(int(case.quantis)), enc_e[0], enc_e[1], common.qstr(case.betas[0]), common.qstr(case.betas[1]),
-        enc_old[0], enc_old[1], enc_streams(produced),
-        ",".join(common.qstr(u) for u in case.draws) if case.draws else "-",
-        ",".join(f"{k}={common.qstr(v)}" for k, v in sorted(energies.items())) if energies else "-",
-        common.qstr(evalue) if evalue is not None else "1/1",
-    ])
+    req = enc_request(case.quantis, enc_e, case.betas, enc_old, produced, case.draws, energies, evalue)
     if raw["error"]:
         ans = f"ERR {raw['error']}"
     else:
-        p0, p1 = raw["paths"]
-        calls = ";".join(enc_call(c) for c in tape.calls) if tape.calls else "-"
-        ex = "N" if exparg is None else (f"{exparg.numerator}/{exparg.denominator}" if exparg.denominator != 1 else str(exparg.numerator))
-        ans = " ".join(["OUT", str(int(bool(raw["accept"]))), raw["status"], str(rgen.used), enc_path(p0), enc_path(p1), calls, ex])
+        ans = enc_answer(raw["accept"], raw["status"], rgen.used, raw["paths"], tape.calls, exparg)
     return ans, raw, req
+
+
+def enc_request(quantis, enc_e, betas, enc_old, produced, draws, energies, evalue):
+    return " ".join([
+        "swap", str(int(quantis)), enc_e[0], enc_e[1], common.qstr(betas[0]), common.qstr(betas[1]),
+        enc_old[0], enc_old[1], enc_streams(produced),
+        ",".join(common.qstr(u) for u in draws) if draws else "-",
+        ",".join(f"{k}={common.qstr(v)}" for k, v in sorted(energies.items())) if energies else "-",
+        common.qstr(evalue) if evalue is not None else "1/1",
+    ])
+
+
+def enc_answer(accept, status, ndraws, paths, calls, exparg):
+    p0, p1 = paths
+    cs = ";".join(enc_call(c) for c in calls) if calls else "-"
+    ex = "N" if exparg is None else (f"{exparg.numerator}/{exparg.denominator}" if exparg.denominator != 1 else str(exparg.numerator))
+    return " ".join(["OUT", str(int(bool(accept))), status, str(ndraws), enc_path(p0), enc_path(p1), cs, ex])
 
 
 # --------------------------------------------------------------------------- the property's own statement
@@ -401,6 +450,41 @@ def valid_plus(orders):
     return all(L0 <= o <= LN for o in orders[1:-1])
 
 
+def call_tag(config):
+    """tag of a frame without the identity of the engine object: 1000 * (call ordinal + 1) + frame index"""
+    e = engine_of(config)
+    return tag_of(config) - (500 * e if e else 0)
+
+
+def engines_oracle(quantis, accepted, p0, p1, calls):
+    """Which engine object must have produced which frames (the paths are 'valid in their ensembles':
+    the [0-] part is a trajectory of the [0-] dynamics, the [0+] part one of the [0+] dynamics).
+    calls: logged propagate calls (..., eid) in call order.  Returns an error string or None."""
+    # the propagate calls: backward for [0-] on engine0, forward for [0+] on engine1
+    # (quantis: one step [0-], one step [0+], backward [0-], forward [0+])
+    expected = [0, 1, 0, 1] if quantis else [0, 1]
+    what = (["the one-step run of [0-]", "the one-step run of [0+]", "the backward run of [0-]", "the forward run of [0+]"] if quantis
+            else ["the backward run that builds the new [0-] path", "the forward run that builds the new [0+] path"])
+    for n, c in enumerate(calls):
+        if n < len(expected) and c[6] != expected[n]:
+            return (f"wrong engine: {what[n]} (propagate call {n + 1}, reverse={c[1]}, from order {c[0][0]}) was made on "
+                    f"{ENG_NAME[c[6]]} instead of {ENG_NAME[expected[n]]}")
+    if not accepted:
+        return None
+    # frames beyond the shared shooting points
+    pp0 = p0.phasepoints if quantis else p0.phasepoints[:-1]       # retis: last frame = dumped old[0+][1]
+    pp1 = p1.phasepoints if quantis else p1.phasepoints[1:]        # retis: first frame = dumped old[0-][-2]
+    for k, s in enumerate(pp0):
+        if engine_of(s.config) != 0:
+            return (f"wrong engine: frame {k} (order {s.order[0]}) of the new [0-] path {orders_of(p0)} was produced by "
+                    f"{ENG_NAME[engine_of(s.config)]}, not by {ENG_NAME[0]}")
+    for k, s in enumerate(pp1):
+        if engine_of(s.config) != 1:
+            return (f"wrong engine: frame {k + (0 if quantis else 1)} (order {s.order[0]}) of the new [0+] path {orders_of(p1)} was produced by "
+                    f"{ENG_NAME[engine_of(s.config)]}, not by {ENG_NAME[1]}")
+    return None
+
+
 def oracle(case, raw):
     """C11 evaluated on the implementation's outputs.  Returns an error string or None."""
     if raw["error"]:
@@ -427,9 +511,9 @@ def oracle(case, raw):
                 return f"new [0-] path {n0} does not end with the first two frames {o1[:2]} of the old [0+] path"
             if n1[:2] != [float(x) for x in o0[-2:]] and case.script[1][0] is None:
                 return f"new [0+] path {n1} does not start with the last two frames {o0[-2:]} of the old [0-] path"
-            if tag_of(p0.phasepoints[-1].config) != 100000 + 200 + 1 or tag_of(p0.phasepoints[-2].config) != 1000:
+            if tag_of(p0.phasepoints[-1].config) != 100000 + 200 + 1 or call_tag(p0.phasepoints[-2].config) != 1000:
                 return "new [0-] path: last two frames are not (first frame of the backward run, dumped copy of old[0+][1])"
-            if tag_of(p1.phasepoints[0].config) != 200000 + 100 + len(o0) - 2 or tag_of(p1.phasepoints[1].config) != 2000:
+            if tag_of(p1.phasepoints[0].config) != 200000 + 100 + len(o0) - 2 or call_tag(p1.phasepoints[1].config) != 2000:
                 return "new [0+] path: first two frames are not (dumped copy of old[0-][-2], first frame of the forward run)"
             if tape.calls[0][0][1] != ("old1", 0) or tape.calls[1][0][1] != ("old0", len(o0) - 1):
                 return "propagation did not start from old[0+][0] / old[0-][-1]"
@@ -437,10 +521,14 @@ def oracle(case, raw):
             honest = all(s[0] is None for s in case.script[:4])
             if honest and (n0[-2] != float(o1[0]) or n1[0] != float(o0[-2])):
                 return f"quantis: junction frames wrong: new[0-][-2]={n0[-2]} vs old[0+][0]={o1[0]}, new[0+][0]={n1[0]} vs old[0-][-2]={o0[-2]}"
-            if tag_of(p0.phasepoints[-1].config) != 1001 or tag_of(p1.phasepoints[1].config) != 2001:
+            if call_tag(p0.phasepoints[-1].config) != 1001 or call_tag(p1.phasepoints[1].config) != 2001:
                 return "quantis: the one-step frames are not at the junction"
             if tape.calls[0][0][1] != ("old1", 0) or tape.calls[1][0][1] != ("old0", len(o0) - 2):
                 return "quantis: one-step propagation did not start from old[0+][0] / old[0-][-2]"
+        # validity: which engine object produced which frames
+        err = engines_oracle(case.quantis, True, p0, p1, tape.calls)
+        if err:
+            return err
         # validity
         ml0 = case.maxlen0
         ml1 = case.maxlen0 if case.quantis else case.maxlen1
@@ -463,6 +551,10 @@ def oracle(case, raw):
                 return f"accepted [0+] path {n1} leaves [{L0},{LN}] in its interior"
             if not (n1[-1] < L0 or n1[-1] > LN):
                 return f"accepted [0+] path {n1} does not end with a crossing frame"
+    if not acc:
+        err = engines_oracle(case.quantis, False, p0, p1, tape.calls)
+        if err:
+            return err
     # thresholds
     if case.quantis and raw["evalue"] is not None:
         en = case.energies
@@ -709,89 +801,191 @@ def gen_quantis(ctx, rng, maxL, n_pairs):
     return cases
 
 
-# --------------------------------------------------------------------------- reversible engine: double swap
+# --------------------------------------------------------------------------- reversible engines: double swap
+
+
+def _walls(x):
+    return 8 if x <= -4 else (-8 if x >= 9 else 0)
+
+
+def _well(x):
+    return 1 if x < 2 else (-1 if x > 2 else 0)
+
+
+def _soft(x):
+    return 2 if x < 0 else (-1 if x > 3 else 0)
+
+
+def _lm1well(x):
+    return 3 if x <= -3 else (-2 if x >= 8 else 0)
+
+
+def _steep(x):
+    return 4 if x <= -2 else (-3 if x >= 6 else (1 if x < 2 else 0))
+
+
+# kick tables of the integer velocity-Verlet engine: each one is a different dynamics
+FORCES = {"free+walls": _walls, "well": _well, "soft": _soft, "lm1well": _lm1well, "steep": _steep}
+ONE_ENGINE_FORCES = ["free+walls", "well", "soft", "lm1well"]
 
 
 def double_swap_cases(ctx, rng, n):
-    """Initial conditions for the deterministic reversible engine: a force table, [0-] and [0+]
-    paths generated BY the dynamics (so that they are valid trajectories), limits above the lengths."""
+    """Initial conditions for ONE deterministic reversible dynamics used by both engine objects: a force
+    table and a state; the [0-] and [0+] paths are cut from the trajectory through the state."""
     out = []
-    forces = [
-        ("free+walls", lambda x: (8 if x <= -4 else (-8 if x >= 9 else 0))),
-        ("well", lambda x: (1 if x < 2 else (-1 if x > 2 else 0))),
-        ("soft", lambda x: (2 if x < 0 else (-1 if x > 3 else 0))),
-        ("lm1well", lambda x: (3 if x <= -3 else (-2 if x >= 8 else 0))),
-    ]
-    for name, F in forces:
+    for name in ONE_ENGINE_FORCES:
         for x in range(-2, 9):
-            for p in range(x - 3, x + 4):
-                out.append((name, F, (x, p)))
+            for v in range(-3, 4):
+                out.append((name, FORCES[name], (x, v)))
     rng.shuffle(out)
     return out[:n]
 
 
-def run_double_swap(ctx, VerletEngine, runner_reqs, quantis, lm1, name, F, s0, maxlen, accept_all=True):
-    """From state s0 (which must be a crossing point of lambda_0) build a valid [0-]/[0+] pair with
-    the engine itself, then swap twice with the REAL function.  Returns (error or None, evaluated?)."""
-    import infretis.core.tis as tis
-    from infretis.classes.path import Path
-    world = {"states": {}, "ncalls": 0, "streams": [], "calls": []}
-    vf = (lambda x: 0.25 * x) if quantis else (lambda x: 0.0)
-    eng0 = VerletEngine(world, F, vf)
-    eng1 = VerletEngine(world, F, vf)
-    e0, e1 = ensembles(lm1, ("sh", "sh"), maxlen, maxlen, None, accept_all, quantis)
-    e0["rgen"] = ScriptRng([0.0] * 8)
-    e1["rgen"] = ScriptRng(())
+def double_swap2_cases(ctx, rng, n):
+    """TWO different dynamics: an ordered pair of different force tables (F0 for the [0-] engine, F1 for
+    the [0+] engine) and one state per ensemble; the [0-] path is cut from the F0-trajectory through
+    the first state, the [0+] path from the F1-trajectory through the second."""
+    names = sorted(FORCES)
+    states = [(x, v) for x in range(-2, 9) for v in range(-3, 4)]
+    out = []
+    for _ in range(n):
+        n0 = rng.choice(names)
+        n1 = rng.choice([m for m in names if m != n0])
+        out.append((n0, n1, rng.choice(states), rng.choice(states)))
+    return out
 
+
+def verlet_line(F, s, nsteps):
+    """states T^-nsteps(s) .. T^nsteps(s) of the velocity-Verlet dynamics with kick table F"""
     def T(s):
-        return eng0.T(s)
+        return vv_step(F, s)
 
-    def R(s):
-        return eng0.R(s)
+    R = vv_reverse
+    forw = [s]
+    for _ in range(nsteps):
+        forw.append(T(forw[-1]))
+    back = [s]
+    for _ in range(nsteps):
+        back.append(R(T(R(back[-1]))))
+    return list(reversed(back[1:])) + forw
 
-    def Tinv(s):
-        return R(T(R(s)))
 
-    left = LM1 if lm1 else float("-inf")
-    # s0 = (x, p): need p... build a trajectory through s0 and cut a [0-] and a [0+] path from it
-    traj = [s0]
-    for _ in range(3 * maxlen):
-        traj.append(T(traj[-1]))
-    back = [s0]
-    for _ in range(3 * maxlen):
-        back.append(Tinv(back[-1]))
-    full = list(reversed(back[1:])) + traj
-    xs = [s[0] for s in full]
-    # find i < j < k: xs[i] > L0 (or < left), xs[i+1..j-1] in [left, L0], xs[j] > L0 ... = [0-] path i..j ;
-    # [0+] path = j-1 .. k with xs[j..k-1] in [L0, LN], xs[k] outside
-    found = None
-    for j in range(2, len(xs) - 2):
+def cut_minus(xs, left, lm1, maxlen):
+    """indices (i, j): xs[i..j] is a valid [0-] path (first frame beyond an interface, interior inside
+    [left, L0], second last frame strictly left of L0, last frame strictly right of it), 3 <= length < maxlen"""
+    for j in range(2, len(xs)):
         if xs[j] > L0 and xs[j - 1] < L0 and left <= xs[j - 1]:
             i = j - 1
             while i >= 0 and left <= xs[i] <= L0:
                 i -= 1
-            if i < 0 or j - i + 1 < 3:
+            if i < 0 or j - i + 1 < 3 or j - i + 1 >= maxlen:
                 continue
-            if not (xs[i] > L0 or xs[i] < left):
+            if not (xs[i] > L0 or (xs[i] < left and lm1)):
                 continue
-            if xs[i] < left and not lm1:
-                continue
-            k = j
+            return i, j
+    return None
+
+
+def cut_plus(xs, left, maxlen):
+    """indices (a, k): xs[a..k] is a valid [0+] path (first frame strictly left of L0 and not beyond
+    lambda_-1, interior inside [L0, LN] starting strictly right of L0, last frame outside), 3 <= length < maxlen"""
+    for a in range(0, len(xs) - 2):
+        if xs[a] < L0 and left <= xs[a] and xs[a + 1] > L0:
+            k = a + 1
             while k < len(xs) and L0 <= xs[k] <= LN:
                 k += 1
-            if k >= len(xs) or k - (j - 1) + 1 < 3:
+            if k >= len(xs) or k - a + 1 < 3 or k - a + 1 >= maxlen:
                 continue
-            if j - i + 1 >= maxlen or k - j + 2 >= maxlen:
-                continue
-            found = (i, j, k)
-            break
-    if not found:
-        return None, False
-    i, j, k = found
+            return a, k
+    return None
 
-    def build(name_, states):
+
+def trajectory_error(world, eng0, eng1, quantis, n0, n1):
+    """validity of the new paths in their ensembles, as dynamics: apart from the shared shooting points
+    (retis: the last frame of the new [0-] path and the first of the new [0+] path) consecutive frames
+    of the new [0-] path are one step of the [0-] engine's dynamics apart, those of the new [0+] path one
+    step of the [0+] engine's."""
+    def phys(eng, s):
+        st = world["states"][tuple(s.config)]
+        return eng.R(st) if s.vel_rev else st
+
+    seg0 = n0.phasepoints if quantis else n0.phasepoints[:-1]
+    seg1 = n1.phasepoints if quantis else n1.phasepoints[1:]
+    for name, seg, eng, path in (("[0-]", seg0, eng0, n0), ("[0+]", seg1, eng1, n1)):
+        for k in range(len(seg) - 1):
+            a, b = phys(eng, seg[k]), phys(eng, seg[k + 1])
+            if eng.T(a) != b:
+                return (f"the new {name} path {orders_of(path)} is not a trajectory of the {name} engine's dynamics: after state (x, v)={a} "
+                        f"(order {seg[k].order[0]}) that engine's step gives {eng.T(a)}, the path continues with {b} (order {seg[k + 1].order[0]})")
+    return None
+
+
+def run_double_swap(ctx, VerletEngine, ds_log, quantis, lm1, names, starts, maxlen, accept_all=True):
+    """Build a valid [0-]/[0+] pair with the engines' own dynamics, then swap twice with the REAL function.
+    names = (force table of the [0-] engine, force table of the [0+] engine); starts = (state, None): one
+    dynamics, both paths cut from the trajectory through the state (they share the two crossing frames);
+    starts = (state0, state1) with two different tables: the [0-] path from the F0-trajectory through
+    state0, the [0+] path from the F1-trajectory through state1.
+    Oracle per swap: engine identities of the calls and frames, the new paths are trajectories of their
+    own ensemble's dynamics; after two swaps: both original order sequences are back.
+    ds_log: list collecting [request, implementation answer, description, oracle failed?] of every retis
+    swap for the comparison with the extracted model.
+    Returns (list of (kind, message) of the statement's clauses that fail, evaluated?)."""
+    import infretis.core.tis as tis
+    from infretis.classes.path import Path
+    from infretis.classes.system import System
+    world = {"states": {}, "ncalls": 0, "streams": [], "calls": []}
+    F0, F1 = FORCES[names[0]], FORCES[names[1]]
+    two = starts[1] is not None
+    vf0 = (lambda x: 0.25 * x) if quantis else (lambda x: 0.0)
+    vf1 = ((lambda x: 0.5 * x + 1.0) if two else vf0) if quantis else (lambda x: 0.0)
+    betas = (1.0, 0.5 if two else 1.0)
+    eng0 = VerletEngine(world, F0, vf0, beta=betas[0], eid=0)
+    eng1 = VerletEngine(world, F1, vf1, beta=betas[1], eid=1)
+    e0, e1 = ensembles(lm1, ("sh", "sh"), maxlen, maxlen, None, accept_all, quantis)
+    rgen = ScriptRng([0.0] * 8)
+    e0["rgen"] = rgen
+    e1["rgen"] = ScriptRng(())
+    left = LM1 if lm1 else float("-inf")
+    line0 = verlet_line(F0, starts[0], 3 * maxlen)
+    xs0 = [s[0] for s in line0]
+    if two:
+        line1 = verlet_line(F1, starts[1], 3 * maxlen)
+        xs1 = [s[0] for s in line1]
+        c0, c1 = cut_minus(xs0, left, lm1, maxlen), cut_plus(xs1, left, maxlen)
+        if not c0 or not c1:
+            return [], False
+        st0, st1 = line0[c0[0]:c0[1] + 1], line1[c1[0]:c1[1] + 1]
+    else:
+        # one trajectory: [0-] = i..j, [0+] = j-1..k
+        found = None
+        for j in range(2, len(xs0) - 2):
+            if xs0[j] > L0 and xs0[j - 1] < L0 and left <= xs0[j - 1]:
+                i = j - 1
+                while i >= 0 and left <= xs0[i] <= L0:
+                    i -= 1
+                if i < 0 or j - i + 1 < 3:
+                    continue
+                if not (xs0[i] > L0 or xs0[i] < left):
+                    continue
+                if xs0[i] < left and not lm1:
+                    continue
+                k = j
+                while k < len(xs0) and L0 <= xs0[k] <= LN:
+                    k += 1
+                if k >= len(xs0) or k - (j - 1) + 1 < 3:
+                    continue
+                if j - i + 1 >= maxlen or k - j + 2 >= maxlen:
+                    continue
+                found = (i, j, k)
+                break
+        if not found:
+            return [], False
+        i, j, k = found
+        st0, st1 = line0[i:j + 1], line0[j - 1:k + 1]
+
+    def build(name_, states, vf):
         p = Path(maxlen=maxlen)
-        from infretis.classes.system import System
         for n_, s in enumerate(states):
             sy = System()
             sy.order = [float(s[0])]
@@ -805,26 +999,53 @@ def run_double_swap(ctx, VerletEngine, runner_reqs, quantis, lm1, name, F, s0, m
         p.weight = 1.0
         return p
 
-    old0 = build("old0", full[i:j + 1])
-    old1 = build("old1", full[j - 1:k + 1])
+    old0 = build("old0", st0, vf0)
+    old1 = build("old1", st1, vf1)
     hist = [(orders_of(old0), orders_of(old1))]
     cur0, cur1 = old0, old1
     fn = tis.quantis_swap_zero if quantis else tis.retis_swap_zero
+    who = (f"reversible engines F0={names[0]} for [0-] / F1={names[1]} for [0+], states {starts[0]} / {starts[1]}" if two
+           else f"reversible engine {names[0]}, start {starts[0]}")
+    who += f", lm1={lm1}, quantis={quantis}, maxlength={maxlen}"
+    errs = []
+    log0 = len(ds_log) if ds_log is not None else 0
+
+    def done(evaluated):
+        if errs and ds_log is not None:
+            for entry in ds_log[log0:]:
+                entry[3] = True
+        return errs, evaluated
+
     for step in range(2):
         picked = {-1: {"ens": e0, "traj": cur0}, 0: {"ens": e1, "traj": cur1}}
+        ncalls0, used0 = len(world["calls"]), rgen.used
+        enc_old = (enc_path(cur0), enc_path(cur1))
         acc, (n0, n1), status = fn(picked, {-1: [eng0], 0: [eng1]})
+        calls = world["calls"][ncalls0:]
+        if not quantis and ds_log is not None:
+            produced = [[(o, tag_of(cfg), rv) for o, cfg, rv in st] for st in world["streams"][ncalls0:]]
+            ds_log.append([enc_request(False, (enc_ens(e0), enc_ens(e1)), betas, enc_old, produced, (), {}, None),
+                           enc_answer(acc, status, rgen.used - used0, (n0, n1), calls, None),
+                           {"names": list(names), "starts": [starts[0], starts[1]], "lm1": lm1, "maxlen": maxlen, "swap": step + 1}, False])
+        if acc:
+            err = trajectory_error(world, eng0, eng1, quantis, n0, n1)
+            if err:
+                errs.append(("not a trajectory", f"{who}: swap {step + 1} of {hist[-1]}: {err}"))
+        err = engines_oracle(quantis, acc, n0, n1, calls)
+        if err:
+            errs.append(("wrong engine", f"{who}: swap {step + 1} of {hist[-1]}: {err}"))
         if not acc:
             if step == 0:
-                return None, False          # first swap rejected (e.g. too long): nothing to check
-            return (f"reversible engine {name}, start {s0}, lm1={lm1}, quantis={quantis}: first swap accepted, the swap back was rejected with {status}; "
-                    f"paths {hist[0]} -> {hist[-1]}"), True
+                return done(bool(errs))     # first swap rejected (e.g. too long): nothing more to check
+            errs.append(("swap back rejected", f"{who}: first swap accepted, the swap back was rejected with {status}; paths {hist[0]} -> {hist[-1]}"))
+            return done(True)
         hist.append((orders_of(n0), orders_of(n1)))
         cur0, cur1 = n0, n1
     if hist[2] != hist[0]:
-        return (f"reversible engine {name}, start {s0}, lm1={lm1}, quantis={quantis}: swapping twice gave {hist[2]} instead of the original {hist[0]} "
-                f"(intermediate {hist[1]})"), True
-    ctx.dist(f"double swap {'quantis' if quantis else 'retis'} lm1={int(lm1)}")
-    return None, True
+        errs.append(("not restored", f"{who}: swapping twice gave {hist[2]} instead of the original {hist[0]} (intermediate {hist[1]})"))
+    if not errs:
+        ctx.dist(f"double swap {'two engines ' if two else ''}{'quantis' if quantis else 'retis'} lm1={int(lm1)}")
+    return done(True)
 
 
 def case_size(c):
@@ -879,7 +1100,8 @@ def run(ctx):
                 corr_fail += 1
                 corr_bad.append((case_size(c), req, mo, io, c))
         # smallest failing inputs first (the enumeration doubles as the shrinker)
-        oracle_fail.sort(key=lambda t: t[:2])
+        # ... accepted swaps before rejected ones (the statement is mostly about accepted swaps)
+        oracle_fail.sort(key=lambda t: (not t[3].startswith("OUT 1 "),) + t[:2])
         corr_bad.sort(key=lambda t: t[:2])
         ctx.cov["oracle_failures"] = len(oracle_fail)
         seen_msgs = set()
@@ -900,26 +1122,54 @@ def run(ctx):
         for k in (0, len(reqs) // 3, len(reqs) // 2, len(reqs) - 1):
             ctx.sample({"request": reqs[k], "model": outs[k], "impl": metas[k][0]})
 
-        # double swap with the reversible engine, on the real functions
-        nds = nds_fail = 0
-        inits = double_swap_cases(ctx, rng, 300 if quick else 2000)
-        for name, F, s0 in inits:
+        # double swap with reversible engines, on the real functions: one dynamics for both engine
+        # objects, and two different dynamics (one per ensemble)
+        nds = nds2 = nds_fail = 0
+        ds_log = []
+        ds_kinds = set()
+        jobs = []
+        for name, F, s0 in double_swap_cases(ctx, rng, 300 if quick else 2000):
+            jobs.append(((name, name), (s0, None)))
+        for n0, n1, sa, sb in double_swap2_cases(ctx, rng, 1500 if quick else 10000):
+            jobs.append(((n0, n1), (sa, sb)))
+        for names, starts in jobs:
             for quantis in (False, True):
                 for lm1 in (False, True):
                     for maxlen in (40, 12):
-                        err, evaluated = run_double_swap(ctx, VerletEngine, None, quantis, lm1, name, F, s0, maxlen)
+                        errs, evaluated = run_double_swap(ctx, VerletEngine, ds_log, quantis, lm1, names, starts, maxlen)
                         if evaluated:
                             nds += 1
-                            ctx.count(("ds", name, s0, quantis, lm1, maxlen), nontrivial=True)
-                        if err:
+                            nds2 += starts[1] is not None
+                            ctx.count(("ds", names, starts, quantis, lm1, maxlen), nontrivial=True)
+                        if errs:
                             nds_fail += 1
-                            if nds_fail <= 3:
+                        for kind, err in errs:          # one replay per clause of the statement that fails
+                            if kind not in ds_kinds:
+                                ds_kinds.add(kind)
                                 ctx.violation(f"C11 statement fails on the implementation: {err}",
-                                              {"kind": "double_swap", "force": name, "start": s0, "quantis": quantis, "lm1": lm1, "maxlen": maxlen}, True)
+                                              {"kind": "double_swap", "forces": list(names), "starts": [starts[0], starts[1]],
+                                               "quantis": quantis, "lm1": lm1, "maxlen": maxlen}, True)
         ctx.cov["double_swaps_evaluated"] = nds
+        ctx.cov["double_swaps_two_engines_evaluated"] = nds2
         ctx.cov["double_swap_failures"] = nds_fail
-        if nds < 50:
-            ctx.violation("double-swap oracle evaluated on fewer than 50 cases (generator broken)", {"evaluated": nds}, False)
+        if nds - nds2 < 50 or nds2 < 200:
+            ctx.violation("double-swap oracle evaluated on fewer than 50 one-engine / 200 two-engine cases (generator broken)",
+                          {"evaluated": nds, "two_engines": nds2}, False)
+        # every retis swap of the double swaps against the extracted model (paths, statuses, calls incl. engine identities)
+        ds_outs = runner.run([e[0] for e in ds_log])
+        ds_bad = [(r, mo, io, d) for (r, io, d, failed), mo in zip(ds_log, ds_outs) if mo != io and not failed]
+        for e in ds_log:
+            ctx.count(e[0], nontrivial=True)
+        for r, mo, io, d in ds_bad[:2]:
+            tail = ("the property oracle did find failing inputs, see the other replays" if (oracle_fail or nds_fail)
+                    else f"property oracle found no failing input among {len(ds_log)} swaps")
+            ctx.violation(f"correspondence model/implementation broken for a retis zero swap driven by the reversible engines "
+                          f"({len(ds_bad)} of {len(ds_log)} swaps differ; {tail})",
+                          {"kind": "ds_lockstep", "correspondence": "c11 runner vs infretis.core.tis", "setup": d,
+                           "impl": io, "model": mo, "request": r}, False)
+        if ds_log:
+            ctx.sample({"request": ds_log[len(ds_log) // 2][0], "model": ds_outs[len(ds_log) // 2], "impl": ds_log[len(ds_log) // 2][1]})
+        corr_ds = {"compared": len(ds_log), "disagreements": len(ds_bad)}
     finally:
         tis.np = saved_np
         tis.ENGINES = {}
@@ -930,16 +1180,25 @@ def run(ctx):
                        "lambda_minus_one on/off on representative pairs; degenerate inputs (empty/short paths, missing streams, dishonest first frames); "
                        "wf/ss moves with interface_cap absent/4/5 and the draw on a grid around the ratio; quantis with dyadic energies, three beta pairs, "
                        "draws on a grid around min(1,E), accept_all on/off.  A case is distinct by its request line; all exercise a modelled branch. "
-                       "double swap: the real functions run twice with a deterministic reversible integer engine (position Verlet, 4 force tables), "
-                       "initial pairs cut from the engine's own trajectories." % (5 if quick else 6))
-    ctx.cov["correspondence"] = {"compared": len(reqs), "disagreements": corr_fail}
+                       "Every case runs with two distinguishable engine objects (identity logged per call and per frame, compared with the model's c_eng and "
+                       "checked by the oracle: frames beyond the shared points come from the ensemble's own engine).  "
+                       "double swap: the real functions run twice with deterministic reversible integer engines (velocity Verlet, reversal v -> -v): "
+                       "(a) one dynamics for both engine objects (4 kick tables), initial pairs cut from the engine's own trajectory; (b) two different "
+                       "dynamics, F0 for the [0-] engine and F1 != F0 for the [0+] engine (ordered pairs of 5 kick tables), the [0-] path cut from an "
+                       "F0-trajectory and the [0+] path from an F1-trajectory (seeded states); each with retis/quantis, lambda_minus_one on/off, "
+                       "maxlength 40/12; oracle per swap: engine identities, new paths are trajectories of their own ensemble's dynamics; after two "
+                       "swaps both order sequences restored; every retis swap also compared with the extracted model." % (5 if quick else 6))
+    ctx.cov["correspondence"] = {"compared": len(reqs) + corr_ds["compared"], "disagreements": corr_fail + corr_ds["disagreements"],
+                                 "scripted lock-step": {"compared": len(reqs), "disagreements": corr_fail},
+                                 "swaps of the reversible-engine double swaps": corr_ds}
     ctx.cov["trusted_base"] += ["extraction: ExtrOcamlBasic only; ocaml/util.ml + ocaml/c11_driver.ml",
-                                "py/checks/c11.py: TapeEngine/VerletEngine (subclasses of plugins.engines.ScriptedEngine, real add_to_path), ScriptRng, np.exp shim, encoders",
+                                "py/checks/c11.py: TapeEngine/VerletEngine (subclasses of plugins.engines.ScriptedEngine, real add_to_path; engine identity = eid attribute of the object, written into every frame's config name and call log), ScriptRng, np.exp shim, encoders",
                                 "numpy.exp (value handed to the model as an exact rational)"]
     ctx.assumptions += ["orders, interfaces, weights are integer-valued floats; energies/betas dyadic (float arithmetic exact)",
                         "System reduced to (order[0], config tag, vel_rev, vpot); Path attributes generated/path_number/weights not compared",
                         "-inf represented in the model by an integer below every order value of the case",
-                        "validity and double-swap oracles are evaluated for valid old paths and equal length limits (one shared tis_set in infretis)"]
+                        "validity and double-swap oracles are evaluated for valid old paths and equal length limits (one shared tis_set in infretis)",
+                        "two-engine double swap: the old [0-] path is a trajectory of the [0-] engine and the old [0+] path one of the [0+] engine (as in a simulation, where each path was generated in its own ensemble); both engines share phase space, configurations, order parameter and velocity reversal"]
 
 
 def replay(doc):
@@ -969,8 +1228,21 @@ def replay(doc):
         return 0
     if rp.get("kind") == "double_swap":
         ctx = common.Ctx("C11", "quick", 0)
-        for name, F, s0 in double_swap_cases(ctx, __import__("random").Random(0), 10 ** 9):
-            if name == rp["force"] and list(s0) == list(rp["start"]):
-                print("oracle:", run_double_swap(ctx, VerletEngine, None, rp["quantis"], rp["lm1"], name, F, s0, rp["maxlen"]))
+        if "forces" in rp:
+            names, starts = tuple(rp["forces"]), tuple(tuple(s) if s is not None else None for s in rp["starts"])
+        else:                       # replays written before the two-engine scenarios
+            names, starts = (rp["force"], rp["force"]), (tuple(rp["start"]), None)
+        print("oracle:", run_double_swap(ctx, VerletEngine, None, rp["quantis"], rp["lm1"], names, starts, rp["maxlen"]))
+        return 0
+    if rp.get("kind") == "ds_lockstep":
+        d = rp["setup"]
+        log = []
+        ctx = common.Ctx("C11", "quick", 0)
+        starts = tuple(tuple(s) if s is not None else None for s in d["starts"])
+        print("oracle:", run_double_swap(ctx, VerletEngine, log, False, d["lm1"], tuple(d["names"]), starts, d["maxlen"]))
+        r = common.Runner("c11")
+        for req, io, dd, _ in log:
+            print(f"swap {dd['swap']}: implementation now answers:", io)
+            print(f"swap {dd['swap']}: model now answers:         ", r.run([req])[0])
         return 0
     return 0
